@@ -45,10 +45,8 @@ Definition ledger_seq_index {K} (ltb : K -> K -> bool) (x : K) (field : list K) 
 
 (* which certificates need a script witness: the legacy registration (0) and the pool / genesis / MIR kinds never *)
 Definition ledger_cert_script_locked (c : cert) : bool :=
-  match c_kind c with
-  | 0 | 3 | 4 | 5 | 6 => false
-  | _ => (c_kind c <=? 18) && c_script c          (* there are 19 kinds, 0..18 *)
-  end.
+  if existsb (N.eqb (c_kind c)) [0; 3; 4; 5; 6] then false
+  else (c_kind c <=? 18) && c_script c.           (* there are 19 kinds, 0..18 *)
 
 (* ---------------------------------------------------------------------------------------- *)
 (* what a sequence of calls asks for: a finite map item -> witness, as a function *)
